@@ -33,6 +33,9 @@ func cellDocument(c c04Cell) string {
 	if c.Def == "invalid-regex" {
 		regexBody = "/(/"
 	}
+	if strings.HasPrefix(c.Text, "/") {
+		regexBody = c.Text // the regex classes carry their own text
+	}
 	head := "JSIGHT 0.3\n"
 	switch c.Pos {
 	case "TYPE":
@@ -59,6 +62,18 @@ func cellDocument(c c04Cell) string {
 		return head + "GET /a\n  Query\n" + indent(b, "  ") + "\n  200 any\n"
 	case "Path":
 		return head + "GET /a/{id}\n  Path\n" + indent(b, "  ") + "\n  200 any\n"
+	case "Path-full", "Query-full", "Headers-req-full", "Request-full", "Headers-resp-full", "RESP-full":
+		// the schema under test among valid companions of every other kind on the same method
+		ok := "{\n  \"id\": 1\n}"
+		pick := func(which string) string {
+			if which+"-full" == c.Pos {
+				return b
+			}
+			return ok
+		}
+		return head + "POST /a/{id}\n  Path\n" + indent(pick("Path"), "  ") + "\n  Query\n" + indent(pick("Query"), "  ") +
+			"\n  Request\n    Headers\n" + indent(pick("Headers-req"), "    ") + "\n    Body\n" + indent(pick("Request"), "    ") +
+			"\n  200\n    Headers\n" + indent(pick("Headers-resp"), "    ") + "\n    Body\n" + indent(pick("RESP"), "    ") + "\n  404 any\n"
 	case "Params":
 		return head + "URL /r\n  Protocol json-rpc-2.0\n  Method m\n    Params\n" + indent(b, "    ") + "\n"
 	case "Result":
